@@ -53,6 +53,9 @@ SHAPES = {
     "any_3clients_2workers": (lambda: [track.Parallel([T("C", 2, any_completes_parent=True), T("D", iterations=None, any_completes_parent=True)])], 2),
     # an element with completed-by 'any' that uses fewer clients than the widest element: a worker without any task in it reaches
     # the join point at once, which must not count as "a task finished"
+    # over-committed element where a worker runs a finite task and then an endless one, completed by a task on ANOTHER worker: the
+    # broadcast may arrive while the finite run is finished but the worker has not yet woken up to start the endless one
+    "named_finite_then_endless": (lambda: [track.Parallel([A(), T("X"), T("F"), T("E", iterations=None)], clients=2)], 2),
     "any_idle_worker": (lambda: [T("x", 2), track.Parallel([T("C", any_completes_parent=True)])], 2),
     "any_idle_worker_endless": (lambda: [T("x", 3), track.Parallel([T("C", any_completes_parent=True), T("D", iterations=None, any_completes_parent=True)])], 3),
 }
